@@ -6,14 +6,14 @@ import Mathlib.Tactic.Linarith
 linearly ordered field.  `Path.checkDash` (`cd`) stays arbitrary.  The three geometric questions of
 the path builder are taken in their exact-arithmetic reading (Epsilon → 0 inside them): "the new
 segment is parallel to the previous one and points the same way", and ArcTo's canonical form for
-rot = 0 without radius correction. `Equal` itself is the generated definition with its Epsilon. -/
+rot = 0 without radius correction; tan = sin / cos; Path.Transform's arc case for axis-parallel matrices. `Equal` itself is the generated definition with its Epsilon. -/
 set_option linter.unusedSectionVars false
 namespace C19
 open Canvas Canvas.C19 GenK
 variable {K : Type} [Field K] [LinearOrder K] [IsStrictOrderedRing K] [Env K]
 
 def arithK : Arith K :=
-  { zero := 0, one := 1, nat := fun n => (n : K), c25_4 := 254 / 10, c0_25 := 1 / 4, pi := Env.pi,
+  { zero := 0, one := 1, nat := fun n => (n : K), c25_4 := 254 / 10, c0_25 := 1 / 4, mmPerPx := 254 / 10 / 96, pi := Env.pi,
     neg := fun x => -x, add := fun a b => a + b, sub := fun a b => a - b, mul := fun a b => a * b,
     div := fun a b => a / b,
     lt := fun a b => decide (a < b), le := fun a b => decide (a ≤ b), beq := fun a b => decide (a = b),
@@ -32,12 +32,22 @@ def arcFixK (_start : Pt K) (rx ry : K) (_e : Pt K) : K × K × K :=
   let ry := |ry|
   if GenK.Equal rx ry then (rx, ry, 0) else if rx < ry then (ry, rx, 90 * Env.pi / 180) else (rx, ry, 0)
 
+/-- the arc case of Path.Transform in its exact reading for an axis-parallel matrix and an unrotated arc
+(the only use the importer makes of it): the radii are scaled, the larger one comes first (rotated by
+90° if that is the y radius), a reflection flips the sweep -/
+def transformArcK (m : Mat K) (rx ry _phi : K) (sweep : Bool) : K × K × K × Bool :=
+  let a := |m.a| * rx
+  let b := |m.e| * ry
+  let sw := if m.a * m.e < 0 then !sweep else sweep
+  if a < b then (b, a, Env.pi / 2, sw) else (a, b, 0, sw)
+
 def opsK (cd : K → List K → K → List K × Bool) : Ops K :=
   { arithK with
     ident := ⟨1, 0, 0, 0, 1, 0⟩,
     mmul := Matrix.Mul, translate := Matrix.Translate, scale := Matrix.Scale,
     reflectYAbout := Matrix.ReflectYAbout,
     sincos := fun x => (Env.sin x, Env.cos x),
+    tan := fun x => Env.sin x / Env.cos x, dot := Matrix.Dot, transformArc := transformArcK,
     lineExtends := lineExtendsK, closeExtends := closeExtendsK, arcFix := arcFixK,
     checkDash := cd }
 
